@@ -270,7 +270,10 @@ def run_both(scratch, binary, cases, cfg_home=None, timeout=600, extra_env=None,
         env.update(extra_env)
     t0 = time.time()
     try:
-        p = subprocess.run([binary, cf], env=env, stdout=subprocess.PIPE, stderr=subprocess.PIPE, text=True,
+        cmdline = [binary, cf]
+        if os.environ.get("VERIF_STRACE"):      # development aid: system calls of the harness and its children
+            cmdline = ["strace", "-f", "-e", "trace=" + os.environ["VERIF_STRACE"], "-o", os.path.join(os.environ.get("VERIF_STRACE_DIR", "/tmp"), tag + ".strace")] + cmdline
+        p = subprocess.run(cmdline, env=env, stdout=subprocess.PIPE, stderr=subprocess.PIPE, text=True,
                            timeout=timeout, cwd=scratch.work, errors="replace")
         impl_out, impl_rc, impl_err = p.stdout, p.returncode, p.stderr
     except subprocess.TimeoutExpired as e:
